@@ -277,7 +277,7 @@ func runHLL(c *vrt.Ctx) {
 				c.Violationf(name+".Union|incompatible-"+tc.mode+"|operand-modified", rp, "Union returned %v but changed its operand", err)
 			}
 		}
-		if c.WantSample() && ji%29 == 3 {
+		if c.WantSample() && ji == 3 {
 			c.Sample(map[string]any{"codec": name, "precision": j.p, "items": n, "count": orig.Count(), "message_bytes": len(enc)})
 		}
 	})
